@@ -124,6 +124,47 @@ func allStrings(alpha []string, maxLen int, f func(string)) {
 	rec("")
 }
 
+// runLineReaderTwice: the source goes on after a Finish (a truncated file: Finish, seek, read on
+// with the same reader).  The lines of the first part are looked at only when everything has been
+// read: a line, once delivered, keeps its text.
+func runLineReaderTwice(first, second [][]byte, size int) []string {
+	lines := make(chan *logline.LogLine, 1<<16)
+	var got []*logline.LogLine
+	done := make(chan struct{})
+	go func() {
+		for l := range lines {
+			got = append(got, l)
+		}
+		close(done)
+	}()
+	cp := func(x [][]byte) [][]byte {
+		o := make([][]byte, len(x))
+		for i := range x {
+			o[i] = append([]byte(nil), x[i]...)
+		}
+		return o
+	}
+	sr := &scriptedReader{chunks: cp(first)}
+	ctx := context.Background()
+	lr := logstream.NewLineReader("src", lines, sr, size, func() {})
+	for pass := 0; pass < 2; pass++ {
+		for {
+			if _, err := lr.ReadAndSend(ctx); err != nil {
+				break
+			}
+		}
+		lr.Finish(ctx)
+		sr.chunks, sr.i = cp(second), 0
+	}
+	close(lines)
+	<-done
+	out := make([]string, len(got))
+	for i, l := range got {
+		out[i] = string(append([]byte(nil), l.Line...))
+	}
+	return out
+}
+
 func init() {
 	props["C15"] = &propImpl{
 		gen: func(g *genCtx) {
@@ -158,6 +199,14 @@ func init() {
 					emit(parts, 1+k%4, k%2)
 				})
 			})
+			// the source goes on after a Finish: what was delivered keeps its text
+			for _, size := range []int{1, 2, 4, 16, 64} {
+				for _, a := range [][]string{{"alpha\nbra", "vo"}, {"x"}, {"one\ntwo\n", "fragment"}, {"a", "b", "c"}, {"unfinished business"}} {
+					for _, b := range [][]string{{"XY\nzulu\n"}, {"3\n4\n", "nished"}, {"\n"}, {"q"}, {"a much longer second part than the first one was\nand more\n"}} {
+						g.emit("chunks2", strconv.Itoa(size), hxs(a), hxs(b))
+					}
+				}
+			}
 			// long random streams, random chunking, zero-length reads
 			n := 300
 			if g.thorough() {
@@ -201,6 +250,30 @@ func init() {
 			}
 		},
 		run: func(r *runCtx, id string, f []string) {
+			if f[0] == "chunks2" {
+				size, _ := strconv.Atoi(f[1])
+				mk := func(s string) ([][]byte, []byte) {
+					var cs [][]byte
+					var st []byte
+					for _, p := range unhxs(s) {
+						cs = append(cs, []byte(p))
+						st = append(st, p...)
+					}
+					return cs, st
+				}
+				c1, s1 := mk(f[2])
+				c2, s2 := mk(f[3])
+				got := runLineReaderTwice(c1, c2, size)
+				r.obs(id, "%s", hxs(got))
+				want := append(specSplit(s1), specSplit(s2)...)
+				if !eqTuple(got, want) {
+					r.fail(id, "framing", "stream %s, Finish, stream %s (size %d): delivered %s, want %s", hx(string(s1)), hx(string(s2)), size, hxs(got), hxs(want))
+				} else {
+					r.ok(id)
+				}
+				r.stat("finish_then_more")
+				return
+			}
 			size, _ := strconv.Atoi(f[1])
 			eof := f[2] == "1"
 			parts := unhxs(f[3])
